@@ -13,15 +13,18 @@ ROOT = os.path.dirname(os.path.dirname(os.path.abspath(__file__)))
 
 # property -> list of stages; each stage = (family, focus, runs_quick, runs_thorough, params)
 CHECKS = {
-    "C01": {"level": "exploration", "stages": [("e1", "C01", 40000, 1500000, {})]},
-    "C02": {"level": "exploration", "stages": [("e1", "C02", 40000, 1500000, {})]},
-    "C03": {"level": "exploration", "stages": [("e1", "C03", 40000, 1500000, {})]},
+    "C01": {"level": "exploration", "stages": [("e1", "C01", 40000, 1500000, {}), ("e2", "C01", 4000, 150000, {})]},
+    "C02": {"level": "exploration", "stages": [("e1", "C02", 40000, 1500000, {}), ("e2", "C02", 4000, 150000, {})]},
+    "C03": {"level": "exploration", "stages": [("e1", "C03", 40000, 1500000, {}), ("e2", "C03", 4000, 150000, {})]},
     "C04": {"level": "exploration", "stages": [("e1", "C04", 40000, 1500000, {})]},
     "C07": {"level": "exploration", "stages": [("e1", "C07", 30000, 1000000, {})]},
     "C08": {"level": "exploration", "stages": [("e1", "C08", 30000, 1000000, {})]},
     "C10": {"level": "exploration", "stages": [("e1", "C10", 20000, 700000, {})]},
     "C16": {"level": "exploration", "stages": [("e1", "C16", 30000, 1000000, {})]},
-    "C17": {"level": "exploration", "stages": [("e1", "C17", 30000, 1000000, {})]},
+    "C17": {"level": "exploration", "stages": [("e1", "C17", 30000, 1000000, {}), ("e2", "C17", 4000, 150000, {})]},
+    "C11": {"level": "exploration", "stages": [("e2", "C11", 8000, 300000, {})]},
+    "C12": {"level": "exploration", "stages": [("e2", "C12", 8000, 300000, {})]},
+    "C18": {"level": "fault_enumeration", "stages": [("e2", "C18", 1500, 60000, {})]},
 }
 
 REAL_VS_STUB = {
